@@ -25,8 +25,8 @@ ASSUMPTIONS = [
     "a deferred response is produced either before the next delivery or after the last one; the one-piece run with the same "
     "timing class is the reference, so the verdict does not depend on the harness's own idea of HTTP",
     "the peer stops sending once the server has called loseConnection (mc.net.deliver semantics)",
-    "limits are tightened only through documented attributes (HTTPChannel.MAX_LENGTH/totalHeadersSize/maxHeaders, "
-    "http.maxChunkSizeLineLength); the trailer limit is exercised at its real value",
+    "limits are tightened only through documented attributes (HTTPChannel.MAX_LENGTH/totalHeadersSize/maxHeaders; "
+    "http.maxChunkSizeLineLength=8 in a separate family); the trailer limit is exercised at its real value",
 ]
 MIN = {"quick": {"evaluations": 1400000, "nontrivial": 90000, "outcomes": 11},
        "thorough": {"evaluations": 15000000, "nontrivial": 90000, "outcomes": 11}}
@@ -174,11 +174,16 @@ def limit_streams():
             sz = b"3;" + b"e" * (L - 2)
             p = line("request-line", b"POST / HTTP/1.1") + line("header-line", b"Transfer-Encoding: chunked") + [("end-crlf", CRLF)]
             p += chunked_body({"chunks": [(sz, b"abc", CRLF)]})
-            out.append(("tight/chunkline%d/%s" % (L, cn), p + cont, "tight"))
+            out.append(("chunk8/chunkline%d/%s" % (L, cn), p + cont, "chunk8"))
             p = line("request-line", b"POST / HTTP/1.1") + line("header-line", b"Transfer-Encoding: chunked") + [("end-crlf", CRLF)]
             p += chunked_body({"chunks": [(b"1", b"z", CRLF)], "last": b"0;" + b"e" * (L - 2)})
-            out.append(("tight/lastline%d/%s" % (L, cn), p + cont, "tight"))
+            out.append(("chunk8/lastline%d/%s" % (L, cn), p + cont, "chunk8"))
     return out
+
+
+# streams of the limit families that lie inside every limit: they must be served (vacuity guard)
+SERVED = {"reqline19", "reqline20", "hdrline19", "hdrline20", "total46", "total47", "total48", "nhdr1", "nhdr2",
+          "chunkline5", "chunkline6", "chunkline7", "lastline5", "lastline6", "lastline7", "trailer-3", "trailer-2", "trailer-3x2", "trailer-2x2"}
 
 
 def trailer_limit():
@@ -240,16 +245,16 @@ class Env:
         from twisted.web import http
         self.http = http
         self.old = getattr(http, "maxChunkSizeLineLength", None)
-        if self.cfg == "tight":
+        if self.cfg == "chunk8":
             http.maxChunkSizeLineLength = TIGHT_CHUNKMAX
         return TIGHT if self.cfg == "tight" else None
 
     def __exit__(self, *a):
-        if self.cfg == "tight" and self.old is not None:
+        if self.cfg == "chunk8" and self.old is not None:
             self.http.maxChunkSizeLineLength = self.old
 
 
-FAMILY = {None: "", "tight": ":tightened-limits", "trailer": ":trailer-section-at-size-limit"}
+FAMILY = {None: "", "tight": ":tightened-limits", "chunk8": ":chunk-size-line-limit-8", "trailer": ":trailer-section-at-size-limit"}
 
 
 def compare(whole, split, lab, cfg=None):
@@ -289,7 +294,7 @@ def cut_space(name, n, cfg, tier):
                 yield c
         return
     k = 1
-    if cfg == "tight" or n <= (44 if tier == "quick" else 100):
+    if cfg in ("tight", "chunk8") or n <= (44 if tier == "quick" else 100):
         k = 2
     if tier != "quick" and n <= 30:
         k = 3
@@ -309,6 +314,8 @@ def run_one(st, name, parts, cfg, tier):
             if mc not in wholes:
                 wholes[mc] = H.run_stream([data], "imm" if mc == "imm" else "end", limits)
                 st.outcome(shape(wholes[mc]))
+                if cfg in ("tight", "chunk8", "trailer") and name.split("/")[-2 if "/" in name else 0] in SERVED and not wholes[mc].requests:
+                    raise AssertionError("harness: in-limit stream %s is not served at all (%s)" % (name, shape(wholes[mc])))
             whole = wholes[mc]
             for cuts in cut_space(name, n, cfg, tier):
                 if not cuts:
@@ -342,7 +349,7 @@ def shards(tier, seed):
     cost = []
     for i, (name, parts, cfg) in enumerate(items):
         n = sum(len(b) for _, b in parts)
-        c = n * n if (cfg == "tight" or n <= (44 if tier == "quick" else 100)) else 3 * n
+        c = n * n if (cfg in ("tight", "chunk8") or n <= (44 if tier == "quick" else 100)) else 3 * n
         if cfg == "trailer":
             c = 400000
         cost.append((-c * n, i))
